@@ -652,8 +652,11 @@ class AsyncFIXConnection:
                     await self.send_msg(gap_fill_msg)
 
                 # and then resent the replayMsg
-                replay_msg[FTag.PossDupFlag] = "Y"
-                replay_msg[FTag.OrigSendingTime] = replay_msg[FTag.SendingTime]
+                # the journaled message may itself carry these tags (sent by the application)
+                replay_msg.set(FTag.PossDupFlag, "Y", replace=True)
+                replay_msg.set(
+                    FTag.OrigSendingTime, replay_msg[FTag.SendingTime], replace=True
+                )
                 del replay_msg[FTag.MsgType]
                 del replay_msg[FTag.BeginString]
                 del replay_msg[FTag.BodyLength]
